@@ -1746,8 +1746,19 @@ class EntityTemplate(Block):
             return obj
 
         for ctx in self.all_contexts():
-            current_ctx = ctx
-            ctx.visit_objects(check_usage)
+            always_expr = getattr(ctx, "_always_expr", None)
+
+            if always_expr is not None:
+                # the always expression of a sequential context is emitted
+                # as a concurrent block outside of the process,
+                # it is a driver/user of its own
+                current_ctx = always_expr
+                always_expr.visit_objects(check_usage)
+                current_ctx = ctx
+                Context.visit_objects(ctx, check_usage)
+            else:
+                current_ctx = ctx
+                ctx.visit_objects(check_usage)
 
         for block in self.all_blocks():
             if isinstance(block, Entity):
